@@ -146,7 +146,22 @@ def compare(structure, want, what):
         for name, (cands, dropped, oc) in atoms.items():
             if name not in seen and not dropped and not oc:
                 errs.append(f"{what}: atom {name} of {rid} is missing")
-    # open choices: of each tied clashing pair exactly one must survive
+    # open choices: of each tied clashing pair (equal occupancy, closer than 0.5 A) never both survive; exactly one does when the
+    # pair is isolated (neither atom clashes with a third one)
+    present = {(rid, a.name) for rid, r in got for a in r.atoms}
+    ties = {}
+    for rid, atoms in want:
+        for name, (cands, dropped, oc) in atoms.items():
+            for pair in oc:
+                ties.setdefault(pair, {})[(rid, name)] = (dropped, len(oc))
+    for pair, members in ties.items():
+        if len(members) != 2:
+            continue
+        alive = [k for k in members if k in present]
+        if len(alive) == 2:
+            errs.append(f"{what}: atoms {alive[0][1]} of {alive[0][0]} and {alive[1][1]} of {alive[1][0]} are closer than 0.5 A (equal occupancy) and both were kept")
+        elif not alive and all(not d and n == 1 for d, n in members.values()):
+            errs.append(f"{what}: both atoms of an isolated tied clash ({sorted(k[1] for k in members)}) were removed")
     return errs
 
 
